@@ -61,10 +61,10 @@ impl Property for C14 {
         "Rules classified on the generator's AST (not by asca's parser): segment-only = 1-3 segment-matching input elements (IPA, matrix, group, set; no length/stress/tone parameters) with as many outputs, all matrices of segmental features/nodes (alphas allowed) or all plain IPA; \
          prosody-only = `%`/segment input with an output matrix of [±stress]/[±sec.stress]/[tone:n] only, `$ > *`, `* > $ / X _ Y(Z)`, `$X > &`, `X$ > &`. Environments and exceptions come from the full grammar (sets, optionals, ellipses, structures, syllables, variables, alphas, env sets). \
          Words: 1-4 syllables with stress, tone and long segments, 30% rich pool. Oracle on Ok results: segment-only ⇒ number of syllables, stress vector and tone vector unchanged (and segments per syllable unchanged when the outputs are matrices and no two equal segments are adjacent inside a syllable before or after); \
-         prosody-only ⇒ the flattened sequence of bundles unchanged. Non-trivial: the rule changed the word. Quick 1M, thorough 12M.".into()
+         prosody-only ⇒ the flattened sequence of bundles unchanged. Non-trivial: the rule changed the word. Quick 4M, thorough 40M.".into()
     }
     fn explore(&self, ctx: &mut Ctx) {
-        let n = ctx.tier.pick(1_000_000, 12_000_000);
+        let n = ctx.tier.pick(4_000_000, 40_000_000);
         run_tape_batches(self, ctx, "tiers", n, 400, &|t| {
             let prof_w = if t.chance(3, 10) { WordProfile::RICH } else { WordProfile::PLAIN };
             let word = gen_word(t, prof_w).text();
